@@ -48,3 +48,15 @@ Lemma tie_safe_quote_need : forall (s : Bytes.bytes) (tbl : list Z), bytes_ok s 
 Proof. exact Gen_quote.safe_quote_need. Qed.
 Definition generated_safety_theorems_2 := (Gen_quote.safe_hmatch, Gen_quote.safe_atomcheck, Gen_quote.safe_striptrailingwhitespace,
   Gen_quote.safe_case_lowerb, Gen_quote.safe_byte_rchr, Gen_quote.safe_str_rchr).
+(* the two report writers that copy a child's output to qmail-send, with every array access checked: qmail-lspawn's stays
+   inside the output for ANY output; qmail-rspawn's does when the output is empty or ends with a NUL (qmail-remote ends
+   every report with one; an unterminated tail is read as a C string - the contract recorded in DESIGN.md) *)
+From NQ Require Tie.Gen_report.
+Lemma tie_safe_lspawn_report : forall (pre : list Z) (wstat : Z) (out : Bytes.bytes), bytes_ok out -> 0 <= wstat < 2 ^ 31 ->
+  Z.of_nat (length out) < 2 ^ 31 ->
+  option_map (fun r => K_lreport.v__oob (snd r)) (K_lreport.run (S (length out)) pre wstat (zs out) 0 (Z.of_nat (length out))) = Some 0.
+Proof. exact Gen_report.safe_lreport. Qed.
+Lemma tie_safe_rspawn_report : forall (pre : list Z) (wstat : Z) (out : Bytes.bytes), bytes_ok out -> 0 <= wstat < 2 ^ 31 ->
+  Z.of_nat (length out) < 2 ^ 31 -> (out = nil \/ last out 1%N = 0%N) ->
+  option_map (fun r => K_rreport.v__oob (snd r)) (K_rreport.run (S (length out)) pre wstat (zs out) 0 (Z.of_nat (length out))) = Some 0.
+Proof. exact Gen_report.safe_rreport. Qed.
